@@ -115,11 +115,27 @@ func (d *Duration) UnmarshalText(text []byte) error {
 			out += time.Duration(m) * time.Minute
 		}
 		if match[3] != "" {
-			s, err := strconv.ParseFloat(match[3], 64)
+			// Seconds may carry a decimal fraction. Parse both parts as integers: going
+			// through float64 loses a nanosecond for many sub-second values.
+			whole, frac, _ := strings.Cut(match[3], ".")
+			s, err := strconv.Atoi(whole)
 			if err != nil {
 				return fmt.Errorf("invalid duration seconds (%s): %s", text, err)
 			}
-			out += time.Duration(s * float64(time.Second))
+			out += time.Duration(s) * time.Second
+			if frac != "" {
+				if len(frac) > 9 {
+					frac = frac[:9] // finer than a nanosecond: truncate
+				}
+				ns, err := strconv.Atoi(frac)
+				if err != nil {
+					return fmt.Errorf("invalid duration seconds (%s): %s", text, err)
+				}
+				for i := len(frac); i < 9; i++ {
+					ns *= 10
+				}
+				out += time.Duration(ns)
+			}
 		}
 	}
 
